@@ -4,6 +4,7 @@ import (
 	"fmt"
 	"go/token"
 	"go/types"
+	"math"
 
 	"golang.org/x/tools/go/ssa"
 )
@@ -271,23 +272,42 @@ func (m *Machine) binop(op token.Token, a, b Value, ta, tb types.Type, g *Term, 
 		panic(notEncoded("string binop %v on symbolic strings", op))
 	}
 	if isFloat(ta) {
+		// floating point is not interpreted: arithmetic yields an arbitrary value,
+		// comparisons an arbitrary truth value (sound over-approximation)
+		m.stubsUsed["float64 arithmetic/comparison = arbitrary result"]++
 		switch op {
-		case token.ADD:
-			return UF("fadd", BV(64), x, y)
-		case token.SUB:
-			return UF("fsub", BV(64), x, y)
-		case token.MUL:
-			return UF("fmul", BV(64), x, y)
-		case token.QUO:
-			return UF("fdiv", BV(64), x, y)
-		case token.LSS:
-			return UF("flt", BoolSort, x, y)
-		case token.GTR:
-			return UF("flt", BoolSort, y, x)
-		case token.LEQ:
-			return UF("fle", BoolSort, x, y)
-		case token.GEQ:
-			return UF("fle", BoolSort, y, x)
+		case token.ADD, token.SUB, token.MUL, token.QUO:
+			if x.IsConst() && y.IsConst() {
+				a, b := math.Float64frombits(x.val), math.Float64frombits(y.val)
+				var r float64
+				switch op {
+				case token.ADD:
+					r = a + b
+				case token.SUB:
+					r = a - b
+				case token.MUL:
+					r = a * b
+				default:
+					r = a / b
+				}
+				return Const(64, math.Float64bits(r))
+			}
+			return m.fresh("f", BV(64))
+		case token.LSS, token.GTR, token.LEQ, token.GEQ:
+			if x.IsConst() && y.IsConst() {
+				a, b := math.Float64frombits(x.val), math.Float64frombits(y.val)
+				switch op {
+				case token.LSS:
+					return Bool(a < b)
+				case token.GTR:
+					return Bool(a > b)
+				case token.LEQ:
+					return Bool(a <= b)
+				default:
+					return Bool(a >= b)
+				}
+			}
+			return m.fresh("fcmp", BoolSort)
 		}
 		panic(notEncoded("float binop %v", op))
 	}
@@ -370,7 +390,11 @@ func (m *Machine) binop(op token.Token, a, b Value, ta, tb types.Type, g *Term, 
 
 func (m *Machine) eq(a, b Value, t types.Type) *Term {
 	if isFloat(t) {
-		return UF("feq", BoolSort, a.(*Term), b.(*Term))
+		x, y := a.(*Term), b.(*Term)
+		if x.IsConst() && y.IsConst() {
+			return Bool(math.Float64frombits(x.val) == math.Float64frombits(y.val))
+		}
+		return m.fresh("fcmp", BoolSort)
 	}
 	return valueEq(a, b)
 }
